@@ -1573,6 +1573,34 @@ theorem meter_collect_matches (mc : MCfg) (h : List MOp) (r : Nat) (key : Stream
     Matches (streamOut mc h r key) (expected mc.cfg r (proj mc key h) (collectsIn h + 1)) := by
   rw [streamOut_eq]; exact collect_matches mc.cfg _ r _ hr
 
+/-- the output log of a stream's projected history is exactly the sequence of what the meter handed out for that
+    stream: each `Collect` by `r` contributes `streamOut` (when it is a `MetricData`), nothing else does -/
+theorem meter_outs_cons (mc : MCfg) (key : StreamKey) (r : Nat) (o : List MOp) :
+    (srunRev mc.cfg (proj mc key (.collect r :: o))).2 =
+      match streamOut mc o r key with
+      | some md => (r, md) :: (srunRev mc.cfg (proj mc key o)).2
+      | none => (srunRev mc.cfg (proj mc key o)).2 := by
+  rw [streamOut_eq]
+  exact outs_cons_collect mc.cfg r (collectsIn o + 1) (proj mc key o)
+
+theorem meter_outs_other (mc : MCfg) (key : StreamKey) (op : MOp) (o : List MOp) (h : ∀ r, op ≠ .collect r) :
+    (srunRev mc.cfg (proj mc key (op :: o))).2 = (srunRev mc.cfg (proj mc key o)).2 := by
+  cases op with
+  | collect r => exact absurd rfl (h r)
+  | create n k => rfl
+  | add hd a v =>
+    simp only [proj]
+    cases (created o)[hd]? with
+    | none => rfl
+    | some nk =>
+      obtain ⟨n, k⟩ := nk
+      simp only
+      split
+      · cases effective k v with
+        | none => rfl
+        | some v' => exact outs_cons_add mc.cfg a v' _
+      · rfl
+
 /-- Σ of everything added for `a` through **any** handle created for instrument `(n, k)` (values as they reach the
     aggregation: a monotonic instrument ignores negative values) -/
 def instrTotal (n : Nat) (k : Kind) : List MOp → Nat → Int
